@@ -221,6 +221,29 @@ macro_rules! with_rounds {
     };
 }
 
+// the context constructors and `Drg::new` with round counts next to the legal ones, zero and a huge one (C20 refusal
+// matrix): every one of them is refused by the same `assert!` before anything is computed
+macro_rules! with_rounds_ctx {
+    ($r:expr, $f:ident, $($args:expr),*) => {
+        match $r {
+            8 => $f::<8>($($args),*),
+            12 => $f::<12>($($args),*),
+            20 => $f::<20>($($args),*),
+            10 => $f::<10>($($args),*),
+            0 => $f::<0>($($args),*),
+            1 => $f::<1>($($args),*),
+            7 => $f::<7>($($args),*),
+            9 => $f::<9>($($args),*),
+            11 => $f::<11>($($args),*),
+            13 => $f::<13>($($args),*),
+            19 => $f::<19>($($args),*),
+            21 => $f::<21>($($args),*),
+            4294967295 => $f::<4294967295>($($args),*),
+            _ => "bad-op".to_string(),
+        }
+    };
+}
+
 pub fn run(op: &str, a: &[&str]) -> Option<String> {
     let r = match op {
         "stream.chacha" | "stream.chachaorig" | "stream.xchacha" | "stream.salsa" | "stream.xsalsa" => {
@@ -234,11 +257,11 @@ pub fn run(op: &str, a: &[&str]) -> Option<String> {
             };
             if nonce.len() != nlen || (k32 && key.len() != 32) { return Some("bad-args".into()); }
             match op {
-                "stream.chacha" => with_rounds!(rr, run_chacha, &key, &nonce, prog),
-                "stream.chachaorig" => with_rounds!(rr, run_chachaorig, &key, &nonce, prog),
-                "stream.xchacha" => with_rounds!(rr, run_xchacha, &key, &nonce, prog),
-                "stream.salsa" => with_rounds!(rr, run_salsa, &key, &nonce, prog),
-                _ => with_rounds!(rr, run_xsalsa, &key, &nonce, prog),
+                "stream.chacha" => with_rounds_ctx!(rr, run_chacha, &key, &nonce, prog),
+                "stream.chachaorig" => with_rounds_ctx!(rr, run_chachaorig, &key, &nonce, prog),
+                "stream.xchacha" => with_rounds_ctx!(rr, run_xchacha, &key, &nonce, prog),
+                "stream.salsa" => with_rounds_ctx!(rr, run_salsa, &key, &nonce, prog),
+                _ => with_rounds_ctx!(rr, run_xsalsa, &key, &nonce, prog),
             }
         }
         "stream.eng" => {
@@ -266,7 +289,7 @@ pub fn run(op: &str, a: &[&str]) -> Option<String> {
             if a.len() != 3 { return Some("bad-args".into()); }
             let (rr, seed, prog) = (us(a[0]), unhex(a[1]), a[2]);
             if seed.len() != 32 { return Some("bad-args".into()); }
-            with_rounds!(rr, run_drg, &seed, prog)
+            with_rounds_ctx!(rr, run_drg, &seed, prog)
         }
         _ => return None,
     };
